@@ -335,6 +335,30 @@ pub fn run(ctx: &'static Ctx) {
         }
     }
     refuse(&format!("{{{}}}", good), "braces");
+    // groups that coincide (related arguments inside one string): every 16-bit value as the second, third and fourth group at
+    // once, pairwise, and as the halves / thirds of the first and last group - a rule that looks a group up by its text
+    // rather than its position shows only when two groups read the same
+    {
+        let n = AtomicU64::new(0);
+        (0..=0xffffu32).into_par_iter().for_each(|v| {
+            let g = format!("{:04x}", v);
+            let o = format!("{:04x}", (v ^ 0x5a5a) & 0xffff);
+            let forms = [
+                format!("01234567-{}-{}-{}-89abcdef0123", g, g, g),
+                format!("01234567-{}-{}-{}-89abcdef0123", g, o, g),
+                format!("01234567-{}-{}-{}-89abcdef0123", o, g, g),
+                format!("01234567-{}-{}-{}-89abcdef0123", g, g, o),
+                format!("{}{}-{}-{}-{}-{}{}{}", g, g, g, o, g, g, g, g),
+                format!("{}{}-{}-{}-{}-{}{}{}", o, g, o, g, o, g, o, g),
+            ];
+            for st in &forms {
+                check_uuid(ctx, st);
+            }
+            check_uuid(ctx, &forms[0].to_ascii_uppercase());
+            n.fetch_add(7, Ordering::Relaxed);
+        });
+        ctx.engine("E3.uuid-equal-groups", json!({"strings": n.load(Ordering::Relaxed), "what": "all 65536 values shared by groups 2/3/4, by pairs of them, and by the 16-bit parts of groups 1 and 5"}));
+    }
     // every character at every position (the value principle; the property's "malformed strings differing from a valid one
     // in one position"): all of U+0000..U+07FF and a selection beyond, at each of the 36 positions of three valid UUIDs -
     // a hex digit at a digit position / a dash at a dash position must encode that UUID, anything else must be refused
